@@ -30,7 +30,7 @@ import progs
 import ir2print as P
 import c11 as H
 
-EXTRA_MODELS = [("scala", "printcorr_scala"), ("java", "printcorr_java")]
+EXTRA_MODELS = [("scala", "printcorr_scala"), ("java", "printcorr_java"), ("groovy", "printcorr_groovy")]
 OPTS = H.OPTS
 
 
